@@ -84,7 +84,58 @@ static std::string childDoc(int kind) {
 	       "<transition event=\"ping\"><send target=\"#_parent\" event=\"c.fwd\"/></transition></state></scxml>";
 }
 
+// scenario "all" (combo >= 12): two regions of a parallel invoke one child each (K1, K2); the driver calls
+// cancel() -- or sends "quit" (transition to a top-level final) -- and steps to FINISHED: every invocation
+// must have been uninvoked when the parent's completion ends, and no child callback may follow.
+static void allRun(unsigned seed, int combo, FILE* out) {
+	setenv("USCXML_NOCACHE_FILES", "YES", 1);
+	FILE* devnull = fopen("/dev/null", "w");
+	if (devnull) { dup2(fileno(devnull), 1); dup2(fileno(devnull), 2); }
+	unsigned s = seed;
+	int kind = (combo % 2) ? 1 : 2;          // children that need "go" three times / never finish
+	bool byCancel = ((combo / 2) % 2) == 0;
+	std::string doc = "<scxml xmlns=\"http://www.w3.org/2005/07/scxml\" version=\"1.0\" datamodel=\"null\" name=\"parent2\">"
+	                  "<parallel id=\"pp\">"
+	                  "<state id=\"q1\"><invoke type=\"scxml\" id=\"K1\"><content>" + childDoc(kind) + "</content></invoke></state>"
+	                  "<state id=\"q2\"><invoke type=\"scxml\" id=\"K2\"><content>" + childDoc(kind) + "</content></invoke></state>"
+	                  "<transition event=\"quit\" target=\"fin\"/><transition event=\"c\"/>"
+	                  "</parallel><final id=\"fin\"/></scxml>";
+	Interpreter interp = Interpreter::fromXML(doc, "file:///verif/mti2.scxml");
+	Mon mon;
+	interp.addMonitor(&mon);
+	auto t0 = std::chrono::steady_clock::now();
+	auto ms = [&]() { return (long)std::chrono::duration_cast<std::chrono::milliseconds>(std::chrono::steady_clock::now() - t0).count(); };
+	long stopAt = 30 + rnd(s) % 60;
+	bool stopped = false;
+	InterpreterState st = USCXML_UNDEF;
+	while (ms() < 600) {
+		st = interp.step(2);
+		if (st == USCXML_FINISHED) break;
+		if (!stopped && ms() >= stopAt) {
+			{
+				std::lock_guard<std::mutex> l(LOGM);
+				LOG.push_back(std::string("{\"k\":\"ev\",\"r\":\"D\",\"cb\":\"") + (byCancel ? "cancel" : "recv") + "\",\"a\":\"quit\"}");
+			}
+			if (byCancel) interp.cancel();
+			else interp.receive(Event("quit", Event::EXTERNAL));
+			stopped = true;
+		}
+	}
+	{
+		std::lock_guard<std::mutex> l(LOGM);
+		LOG.push_back(std::string("{\"k\":\"ev\",\"r\":\"D\",\"cb\":\"finished\",\"a\":\"") + (st == USCXML_FINISHED ? "yes" : "no") + "\"}");
+	}
+	usleep(150000);     // anything a still running child does shows up now
+	{
+		std::lock_guard<std::mutex> l(LOGM);
+		for (auto& l2 : LOG) fprintf(out, "%s\n", l2.c_str());
+		fflush(out);
+	}
+	_exit(0);
+}
+
 static void oneRun(unsigned seed, int combo, FILE* out) {
+	if (combo >= 12) allRun(seed, combo, out);
 	setenv("USCXML_NOCACHE_FILES", "YES", 1);
 	FILE* devnull = fopen("/dev/null", "w");
 	if (devnull) { dup2(fileno(devnull), 1); dup2(fileno(devnull), 2); }
@@ -143,9 +194,10 @@ int main(int argc, char** argv) {
 	int runs = atoi(argv[2]);
 	unsigned seed = (unsigned)atoi(argv[3]);
 	for (int r = 1; r <= runs; r++) {
-		int combo = (r - 1) % 12;
-		fprintf(out, "{\"k\":\"reset\",\"run\":%d,\"child\":%d,\"autoforward\":%s,\"finalize\":%s}\n", r, combo % 3,
-		        (combo / 3) % 2 ? "true" : "false", (combo / 6) % 2 ? "true" : "false");
+		int combo = (r - 1) % 16;
+		fprintf(out, "{\"k\":\"reset\",\"run\":%d,\"scenario\":\"%s\",\"child\":%d,\"autoforward\":%s,\"finalize\":%s}\n", r,
+		        combo >= 12 ? "all" : "one", combo >= 12 ? ((combo % 2) ? 1 : 2) : combo % 3,
+		        combo < 12 && (combo / 3) % 2 ? "true" : "false", combo < 12 && (combo / 6) % 2 ? "true" : "false");
 		fflush(out);
 		int pfd[2];
 		if (pipe(pfd)) return 2;
